@@ -144,6 +144,30 @@ def implementation_ranges(ck, ctx, fwd, fa):
             ck.ob(key, 'REFUTED' if w else 'UNDECIDED',
                   (f"the pixel {w[0]} gives {nm} = {w[1]!r}, outside the documented range" if w else f"enclosure [{R.lo:.6g}, {R.hi:.9g}] of the computed {nm} is not inside the documented range"))
     ck.count('range_obligations', 3)
+    # tolerances of the computed L and S against the hexcone values (the ideal reading of the same kernel, which the
+    # per-cell identities above show to BE the hexcone definition): sup |computed - ideal| over the clause's region
+    def find_l():
+        for n in X.walk(fwd.fields[2]):
+            if n.op == 'fdiv' and n.args[1].is_const and n.args[1].val == 2.0 and n.args[0].op == 'fadd' and _tree(n.args[0].args[0], 'call:max', atoms) and _tree(n.args[0].args[1], 'call:min', atoms):
+                return n
+        return None
+    lnode = find_l()
+    if lnode is None:
+        ck.ob('C17/tolerance', 'UNDECIDED', 'L is not (max + min) / 2 in the extracted kernel'); return
+    box = [(0.0, 1.0)] * 3
+    up_l, n_l, _, msg = realerr.sup_error_nd(fwd.fields[2], atoms, None, box, 2e-7, max_boxes=200, lemmas=lemmas)
+    ck.ob('C17/tolerance/L', 'PROVED' if up_l <= 1e-6 else 'UNDECIDED', f"|computed L - (max+min)/2| <= {up_l:.3g} <= 1e-6 on [0,1]^3" if up_l <= 1e-6 else f"bound {up_l:.3g} ({msg})")
+    def region_lemmas(n):
+        if n is lnode:
+            return I(0.01 - 1e-6, 0.99 + 1e-6)            # the clause's region 0.01 <= L <= 0.99 (computed L within 1e-6 of it)
+        return lemmas(n)
+    def feasible(env):
+        V = realerr.errprop(lnode, env, None, lemmas)[0]
+        return not (V.hi < 0.01 or V.lo > 0.99)
+    up_s, n_s, wbox, msg = realerr.sup_error_nd(fwd.fields[1], atoms, None, box, 5e-5, max_boxes=40000, lemmas=region_lemmas, feasible=feasible)
+    ck.ob('C17/tolerance/S', 'PROVED' if up_s <= 1e-4 else 'UNDECIDED',
+          f"|computed S - hexcone S| <= {up_s:.3g} <= 1e-4 wherever 0.01 <= L <= 0.99 ({n_s} boxes)" if up_s <= 1e-4 else f"bound {up_s:.3g} after {n_s} boxes, worst box {wbox} ({msg})")
+    ck.count('tolerance_boxes', n_l + n_s)
 
 def range_witness(ctx, e, atoms, lo, hi, strict):
     """constant folding of the kernel at saturated colours whose maximum has low-order mantissa bits set"""
@@ -251,5 +275,5 @@ def run(tier):
         ck.ob(f"C17/doc/L={lv}", 'PROVED' if ok else 'REFUTED', f"L = {lv} gives ({want},{want},{want}) for every finite hue and saturation" if ok else f"L = {lv} gives {[[X.show(x, 4) for x in v] for v in vals]}")
     implementation_ranges(ck, ctx, fwd, fa)
     ck.floor('cells', 12)
-    ck.note('not_decided', ['tolerances under rounding (L 1e-6, S 1e-4, H 0.01 deg, round trip 1e-5)', 'S <= 1 under rounding', 'the epsilon-slivers around ties, black and white'])
+    ck.note('not_decided', ['H within 0.01 deg and the round trip within 1e-5 under rounding (formula level only)', 'S >= 0 for the computed value (formula level)', 'the epsilon-slivers around ties for H'])
     return ck.finish()
